@@ -3,6 +3,9 @@ one event per evaluation (arguments + outputs / exception class).  Only drives a
 projects; Trace_DnsName recomputes every output with the specification's operators.
 
 A name travels as a list of labels, a label as a list of octets."""
+import copy
+import pickle
+
 import dns.exception
 import dns.name
 import dns.namedict
@@ -37,8 +40,36 @@ def outcome(fn, proj=js):
         return ["err", type(ex).__name__, isinstance(ex, dns.exception.DNSException)]
 
 
+CTORS = ["copy", "deepcopy"] + ["pickle%d" % p for p in range(pickle.HIGHEST_PROTOCOL + 1)]
+
+
+def derive(x, ctor):
+    """the same name obtained another way than through Name(labels)"""
+    if ctor == "Name":
+        return x
+    if ctor == "copy":
+        return copy.copy(x)
+    if ctor == "deepcopy":
+        return copy.deepcopy(x)
+    if ctor.startswith("pickle"):
+        return pickle.loads(pickle.dumps(x, int(ctor[6:])))
+    raise ValueError(ctor)
+
+
+def ev_derived(a, ca, b, cb):
+    """the pair observations on objects produced by copy / deepcopy / pickle round trips; the
+    labels logged are those the derived objects actually carry"""
+    x, y = derive(mk(a), ca), derive(mk(b), cb)
+    ev = pair_obs(x, y, js(x), js(y))
+    ev["ca"], ev["cb"], ev["a0"], ev["b0"] = ca, cb, a, b
+    return ev
+
+
 def ev_pair(a, b):
-    x, y = mk(a), mk(b)
+    return pair_obs(mk(a), mk(b), a, b)
+
+
+def pair_obs(x, y, a, b):
     rel, order, n = x.fullcompare(y)
     return {"op": "pair", "a": a, "b": b, "fc": [RELATION[rel], sign(order), n],
             "rich": [x == y, x != y, x < y, x <= y, x > y, x >= y],
@@ -104,7 +135,7 @@ def ev_construct(ls):
     return {"op": "construct", "ls": ls, "res": outcome(lambda: dns.name.Name([bytes(x) for x in ls]))}
 
 
-EVENTS = {"concat": ev_concat, "construct": ev_construct, "pair": ev_pair, "name": ev_name, "rel": ev_rel, "neigh": ev_neigh, "sorted": ev_sorted,
+EVENTS = {"derived": ev_derived, "concat": ev_concat, "construct": ev_construct, "pair": ev_pair, "name": ev_name, "rel": ev_rel, "neigh": ev_neigh, "sorted": ev_sorted,
           "deepest": ev_deepest}
 
 
